@@ -153,10 +153,7 @@ static void role_rotation_case(uint64_t N, int native, unsigned rep) {
   vmp_prepare_contiguous(mod, p2, m2, nrows, ncols, tmp);
   vec_znx_dft(mod, ad, nrows, a, nrows, N);
   for (int variant = 0; variant < 2; variant++) {  // 0: from integer coefficients, 1: from the DFT of the vector
-    // reference for the second product, with buffers that play one role only
-    if (variant == 0) vmp_apply_dft(mod, r3, rs, a, nrows, N, p2, nrows, ncols, tmp);
-    else vmp_apply_dft_to_dft(mod, r3, rs, ad, nrows, p2, nrows, ncols, tmp);
-    // call 1: W is the scratch
+    // call 1: W is the scratch (nothing else has used `a` before: the chain starts here)
     if (variant == 0) vmp_apply_dft(mod, r1, rs, a, nrows, N, p1, nrows, ncols, W);
     else vmp_apply_dft_to_dft(mod, r1, rs, ad, nrows, p1, nrows, ncols, W);
     // W now receives the second prepared matrix: it is a source of call 2, whose scratch lives elsewhere
@@ -167,6 +164,9 @@ static void role_rotation_case(uint64_t N, int native, unsigned rep) {
     else vmp_apply_dft_to_dft(mod, r2, rs, ad, nrows, (VMP_PMAT*)W, nrows, ncols, tmp);
     long d;
     if ((d = snap_cmp_free(&sw)) >= 0) viol("snapshot", "%s: the prepared matrix of the second call (stored where the first call's scratch was) was modified at byte %ld (N=%" PRIu64 " %s)", variant ? "vmp_apply_dft_to_dft" : "vmp_apply_dft", d, N, native ? "native" : "generic");
+    // reference for the second product, computed afterwards with buffers that play one role only
+    if (variant == 0) vmp_apply_dft(mod, r3, rs, a, nrows, N, p2, nrows, ncols, tmp);
+    else vmp_apply_dft_to_dft(mod, r3, rs, ad, nrows, p2, nrows, ncols, tmp);
     if (memcmp(r2, r3, rdb)) viol("differential", "%s: second product of a chain (its matrix stored in the first call's former scratch) differs from the same product with fresh buffers (N=%" PRIu64 ")", variant ? "vmp_apply_dft_to_dft" : "vmp_apply_dft", N);
     cnt("role_rotation_calls", 2);
   }
